@@ -63,7 +63,7 @@ def check_pixel_id(prog, rep, m):
         why = ''
         try:
             got = sp.it.as_scalar(sp.it.ev(v))
-            q = Rat.atom(App('abs', [Rat.sym('point_' + ax) - Rat.sym('origin_' + ax)])) / Rat.sym('cellsize_' + ax)
+            q = sp.it.app('abs', [Rat.sym('point_' + ax) - Rat.sym('origin_' + ax)]) / Rat.sym('cellsize_' + ax)
             at = None
             if got.d.is_const() and len(got.n.t) == 1:
                 (mm, c), = got.n.t.items()
